@@ -18,8 +18,8 @@ Trace == ndJsonDeserialize("trace.ndjson")
 tvars == <<vars, l, pend, placed>>
 None == [o |-> "none"]
 Strat(s) == IF s = "conhashd" THEN "conhash" ELSE s
-Ep(op) == [h |-> op.h, w |-> op.w]
-ListOf(op) == [i \in 1..Len(op.l) |-> [h |-> op.l[i].h, w |-> op.l[i].w]]
+Ep(op) == [h |-> op.h, w |-> op.w, t |-> op.t]
+ListOf(op) == [i \in 1..Len(op.l) |-> [h |-> op.l[i].h, w |-> op.l[i].w, t |-> op.l[i].t]]
 Apply(m, op) == IF op.o = "F" THEN Dedup(ListOf(op))
                 ELSE IF op.o = "A" THEN AddM(m, Ep(op))
                 ELSE RemoveM(m, Ep(op))
@@ -58,13 +58,17 @@ BurstOK(sel) ==
   LET m == members
       T == Len(sel)
   IN /\ \A j \in 1..T : sel[j] \in MayReturn(m)
-     /\ (strat = "rr" /\ ~wtd /\ m # <<>>) =>
+     /\ (strat = "rr" /\ ~WeightsApply(strat, wtd, m) /\ m # <<>>) =>
            \A a, b \in HostsOf(m) : CountIn(sel, a) - CountIn(sel, b) \in {0 - 1, 0, 1}
      /\ (strat = "rr" /\ UsesCycle(strat, wtd, m)) =>
+           \* T consecutive positions of the cycle of length L: q full cycles and a window of r positions, which holds
+           \* endpoint i at most min(F_i, r) times and at least r - (L - F_i) times
            LET W == WeightsOf(m)
-               q == T \div FormulaLen(W)
-           IN \A i \in 1..Len(m) : /\ CountIn(sel, m[i].h) >= q * FormulaCount(W, i)
-                                   /\ CountIn(sel, m[i].h) <= (q + 1) * FormulaCount(W, i)
+               L == FormulaLen(W)
+               q == T \div L
+               r == T % L
+           IN \A i \in 1..Len(m) : /\ CountIn(sel, m[i].h) >= q * FormulaCount(W, i) + Max2(0, r - (L - FormulaCount(W, i)))
+                                   /\ CountIn(sel, m[i].h) <= q * FormulaCount(W, i) + Min2(FormulaCount(W, i), r)
 TBurst == /\ IsEvent("Burst") /\ \A g \in Gs : pend[g] = None
           /\ Trace[l].p = ""
           /\ BurstOK(Trace[l].sel)
